@@ -17,6 +17,7 @@ PKG=$(grep -oE 'internal/[a-zA-Z_/]+/[A-Za-z0-9_]+_test\.go' "$SRC/demo.txt" | h
 [ -z "$PKG" ] && PKG=$(grep -oE '\./internal/[a-zA-Z_/]+' "$SRC/demo.txt" | head -1 | sed 's#^\./##;s#/$##')
 RUN=$(grep -o "\-run '[^']*'" "$SRC/demo.txt" | head -1 | sed "s/-run '//;s/'$//")
 [ -z "$RUN" ] && RUN=$(grep -o '\-run [A-Za-z0-9_|^$]*' "$SRC/demo.txt" | head -1 | sed 's/-run //')
+[ -n "$SEEDRUN" ] && RUN="$SEEDRUN"
 echo "pkg=$PKG run=$RUN demos=$DEMOS" >>"$LOG"
 for d in $DEMOS; do cp "$d" "$WT/$PKG/"; done
 # a demonstration that uses the passive hook points is guarded by the hooks' build tag
